@@ -85,7 +85,9 @@ fn entries_for(mb: u16) -> u64 {
 pub fn sizes(tier: Tier) -> Vec<u16> {
     match tier {
         Tier::Quick => vec![0, 1, 1, 2, 3],
-        Tier::Thorough => vec![0, 1, 1, 2, 3, 2, 3, 64],
+        // (64 MB tables cost 30 ms per allocation or reset: one case in sixteen; large tables have their
+        // own part, big_table_edges)
+        Tier::Thorough => vec![0, 1, 1, 2, 3, 2, 3, 0, 1, 2, 3, 1, 2, 3, 1, 64],
     }
 }
 
@@ -334,7 +336,7 @@ pub fn run(run: &mut Run) -> &'static str {
     ];
     let strat = (proptest::sample::select(szs), proptest::collection::vec(any::<u32>(), 1..4), proptest::collection::vec(op, 1..60))
         .prop_map(|(initial_mb, slots, ops)| Case { initial_mb, slots, ops });
-    let cases = run.tier.pick(300_000, 6_000_000);
+    let cases = run.tier.pick(300_000, 3_000_000);
     run.proptest_part("ops", RULE, strat, cases, run_case);
     // fill indicator over the whole range of fill levels, also on large tables: distinct slots are
     // filled with real inserts up to a few thousand entries; beyond that the occupied-slot counter
